@@ -391,6 +391,7 @@ def gen_range_deletes(nkeys, klen=200, vlen=10, every_bucket=0, touch=None, page
                 else:
                     lines.append("put 1 1 %s %s" % (hx(dkey(x, klen)), vtok(bytes([65 + x % 26]) * vlen)))
             lines.append("commit 1")
+            lines.append("file")   # the stored trees the next transaction starts from (page prediction)
             lines.append("begin 2 w")
             lines.append("getb 2 1 0 %s" % hx(b"root"))
             if tb is not None and not (i <= tb < j):
@@ -446,6 +447,7 @@ def gen_keep_window(nkeys, klen=200, vlen=10, every_bucket=4, pagesize=1024, pre
                 else:
                     lines.append("put 1 1 %s %s" % (hx(dkey(x, klen)), vtok(bytes([65 + x % 26]) * vlen)))
             lines.append("commit 1")
+            lines.append("file")   # the stored trees the next transaction starts from (page prediction)
             lines.append("begin 2 w")
             lines.append("getb 2 1 0 %s" % hx(b"root"))
             if tb is not None:
